@@ -27,7 +27,44 @@ sys.exit(0)
 '''
 
 
+SNAPSHOT = '''
+import sys, os, tempfile, importlib.util
+src = """
+import numpy as np
+from onnxscript import script, FLOAT
+from onnxscript import opset18 as op
+W = np.array([1.0, 2.0], dtype=np.float32)
+V = np.array([1.0, 2.0], dtype=np.float32)
+
+@script(default_opset=op)
+def attr(x: FLOAT[2]) -> FLOAT[2]:
+    return x + op.Constant(value=W)
+
+@script(default_opset=op)
+def operand(x: FLOAT[2]) -> FLOAT[2]:
+    return x + V
+"""
+d = tempfile.mkdtemp(); path = os.path.join(d, "snap_case.py"); open(path, "w").write(src)
+spec = importlib.util.spec_from_file_location("snap_case", path); mod = importlib.util.module_from_spec(spec); sys.modules["snap_case"] = mod; spec.loader.exec_module(mod)
+import onnx
+def consts(m):
+    return [onnx.numpy_helper.to_array(n.attribute[0].t).tolist() for n in m.graph.node if n.op_type == "Constant" and n.attribute[0].HasField("t")]
+bad = 0
+for name, arr in (("attr", mod.W), ("operand", mod.V)):
+    f = getattr(mod, name)
+    before = consts(f.to_model_proto())
+    arr[0] = 100.0
+    after = consts(f.to_model_proto())
+    if before != after:
+        print(f"{name}: constants in the proto were {before}; after mutating the global array in place they are {after}")
+        bad += 1
+sys.exit(1 if bad else 0)
+'''
+
+
 def replay(ob):
+    if "snapshot_of_the_script_time_constant" in ob["name"]:
+        return SNAPSHOT
     n = ob["name"]
     if "pattern_builder" in n:
         return PB
